@@ -41,6 +41,9 @@ SLICES = {
                         OptSets=[set(), {"offline"}], Cleans={True, False}, SPs={True, False}, ConnSEIs={NA, 10}, SendWhileDisc=True),
     "qos_server": dict(Roles={"server"}, Vers={"v311", "v50"}, AppKinds={"publish", "pubrel"}, PeerKinds=ACKS, QosSet={1, 2},
                        MaxConns=2, Cleans={True, False}, SPs={True, False}, ConnSEIs={NA, 10}, ConnRMs={NA, 1}),
+    # three exchanges in flight: store order survives acknowledgements out of order
+    "qos_order": dict(Vers={"v311", "v50"}, AppKinds={"publish"}, PeerKinds={"puback", "pubrec"}, QosSet={1, 2}, MaxConns=2,
+                      Cleans={False}, SPs={True}, ConnSEIs={10}, MaxUsed=3, MaxHeld=1, Close=True),
     # inbound QoS 2: exactly-once delivery (C07)
     "in_qos2": dict(Roles={"client", "server"}, Vers={"v311", "v50"}, AppKinds={"pubrec", "pubcomp"}, PeerKinds={"publish", "pubrel"},
                     QosSet={2}, InPids={1, 2}, Rcs={0, 128}, OptSets=[set(), {"auto_pub"}], MaxConns=2,
